@@ -163,6 +163,24 @@ def run(chk):
         cmp("sphere.inertia_tensor", C.sym6(sph.inertia_tensor), Is, scale=max(abs(x) for x in Is))
         cmp("ellipsoid.volume", eld.volume, vol)
         cmp("ellipsoid.inertia_tensor", C.sym6(eld.inertia_tensor), I6, scale=max(abs(x) for x in I6))
+        # the centre given as integers (tuple of ints / integer array) means the same centre as the float array
+        ci = [int(round(x)) for x in cen[:3]]
+        if any(ci):
+            cf = np.array(ci, float)
+            for nm, mk in (("Sphere", lambda cc_: coxeter.shapes.Sphere(a, cc_)), ("Ellipsoid", lambda cc_: coxeter.shapes.Ellipsoid(a, b, c, cc_)),
+                           ("Circle", lambda cc_: coxeter.shapes.Circle(a, cc_)), ("Ellipse", lambda cc_: coxeter.shapes.Ellipse(a, b, cc_))):
+                ref_sh = mk(cf.copy())
+                for form, arg in (("tuple of ints", tuple(ci)), ("integer array", np.array(ci))):
+                    st, sh_i = C.excname(mk, arg)
+                    if st != "ok":
+                        chk.violation(nm + ".integer-centre-rejected", dict(desc, form=form, centre=ci, error=st)); break
+                    for attr in ("inertia_tensor", "planar_moments_inertia", "polar_moment_inertia", "centroid"):
+                        if not hasattr(type(ref_sh), attr):
+                            continue
+                        x, y = np.asarray(getattr(sh_i, attr), float), np.asarray(getattr(ref_sh, attr), float)
+                        if x.shape != y.shape or not np.allclose(x, y, rtol=1e-13, atol=1e-13 * (1 + float(np.max(np.abs(y))))):
+                            chk.violation("%s.%s-integer-centre" % (nm.lower(), attr), dict(desc, form=form, centre=ci, impl=x.tolist(), with_float_centre=y.tolist()))
+                            break
         ratio = max(a, b, c) / min(a, b, c)
         S_impl = float(eld.surface_area)
         if ratio <= 30:
